@@ -241,7 +241,12 @@ class Transaction(EmbitBase):
             raise TransactionError("Invalid input index")
         if len(values) != len(self.vin):
             raise TransactionError("All spent amounts are required")
+        if len(script_pubkeys) != len(self.vin):
+            raise TransactionError("All spent scripts are required")
         sh, anyonecanpay = SIGHASH.check(sighash)
+        if anyonecanpay and sh == SIGHASH.DEFAULT:
+            # 0x80 is not a hash type of BIP-341
+            raise TransactionError("Invalid SIGHASH type")
         h = hashes.tagged_hash_init("TapSighash", b"\x00")
         h.update(bytes([sighash]))
         h.update(self.version.to_bytes(4, "little"))
